@@ -96,6 +96,15 @@ type Run struct {
 	lastFlush time.Time
 	notes     map[string]string
 	t0        time.Time
+	complete  bool
+}
+
+// Finish marks the case loop as having run to its end (call last in TestCheck).
+// A final snapshot without it means the test function was aborted (FailNow in a bubble).
+func (r *Run) Finish() {
+	r.mu.Lock()
+	r.complete = true
+	r.mu.Unlock()
 }
 
 // C is the context of one case.
@@ -292,7 +301,7 @@ func (r *Run) Flush(final bool) {
 	}
 	sort.Strings(nt)
 	r.emit(map[string]any{
-		"t": "snapshot", "final": final, "shard": r.Env.Shard,
+		"t": "snapshot", "final": final && r.complete, "aborted": final && !r.complete, "shard": r.Env.Shard,
 		"cases": r.cases, "held": r.held, "violated": r.violated,
 		"inconclusive": r.inconcl, "inconclusive_why": r.inconclWhy,
 		"counters": r.counters, "fps_nontrivial": nt, "fps_trivial": triv,
